@@ -1,9 +1,29 @@
 """property id -> check function(prop, tier, replay_path) -> exit code"""
 import raftfamily
 import c19
+import rsmchecks
 
 CHECKS = {}
 CHECKS["RAFT"] = raftfamily.check_all
 for _p in ("C02", "C03", "C06", "C07", "C18"):
     CHECKS[_p] = raftfamily.check
 CHECKS["C19"] = c19.check
+CHECKS["C05"] = rsmchecks.check_c05
+CHECKS["C08"] = rsmchecks.check_c08
+
+
+def _c07(prop, tier, replay_path):
+    """C07 = protocol part (Raft.tla via rsim) + rule table (RSM.tla via smsim on the real membership code)"""
+    import json
+    if replay_path:
+        with open(replay_path) as fh:
+            kind = json.load(fh).get("kind")
+        if kind == "rsim":
+            return raftfamily.check(prop, tier, replay_path)
+        return rsmchecks.run(prop, tier, replay_path, [])
+    a = raftfamily.check(prop, tier, None)
+    b = rsmchecks.check_c07_rules(prop, tier, None)
+    return 1 if 1 in (a, b) else max(a, b)
+
+
+CHECKS["C07"] = _c07
